@@ -81,7 +81,6 @@ func (e *errRender) badLiteral() {
 		if i > 0 && e.r.Chance(1, 6) {
 			e.ws()
 		}
-		e.doc.Lines[e.line()] = true
 		e.b.WriteByte(tok[i])
 	}
 	e.pending = true
@@ -169,7 +168,10 @@ func genLineTree(r *rng.R, root spec.Kind) *spec.Spec {
 	var rec func(k spec.Kind, depth int) *spec.Spec
 	rec = func(k spec.Kind, depth int) *spec.Spec {
 		s := &spec.Spec{K: k}
-		n := r.Range(1, 4)
+		n := r.Range(0, 4)
+		if depth == 1 && n == 0 {
+			n = 2
+		}
 		for i := 0; i < n; i++ {
 			var v *spec.Spec
 			if depth < 5 && r.Chance(4, 10) {
@@ -261,7 +263,10 @@ func runC20(c *fw.Ctx) {
 		{"{\"a\":1,\n\n@\"b\":2}", spec.Obj, []int{3}, "@"},
 		{"{\"a\"\n @ 1}", spec.Obj, []int{2}, "@"},
 		{"{\"a\":[\n]\n x}", spec.Obj, []int{3}, "x"},
-		{"header\nline\n{\"a\":{\"b\":[\n1,{\"c\"\n:\nx\n}]}}", spec.Obj, []int{6, 7}, "x"},
+		{"header\nline\n{\"a\":{\"b\":[\n1,{\"c\"\n:\nx\n}]}}", spec.Obj, []int{7}, "x"},
+		{"[{\n},[\r\n],\n@]", spec.List, []int{4}, "@"},
+		{"[1,\ntru\n]", spec.List, []int{3}, "tru"},
+		{"{\"a\":nul\n\n,\"b\":3}", spec.Obj, []int{3}, "nul"},
 		{"[[\n],[\n],{\"k\":[\n]\n2}]", spec.List, []int{5}, "2"},
 	}
 	c.Cases("pinned", len(pins), true, func(i int, r *rng.R) {
@@ -372,12 +377,18 @@ func selfC20(s *fw.SelfCheck) {
 			continue
 		}
 		made++
-		// the accepted lines must really be lines on which the injected token (or its delimiter) sits
+		// the accepted line must really hold the detection character: the stray token itself, or (K1) a delimiter
 		lines := strings.Split(d.Text, "\n")
-		ok := false
+		ok := len(d.Lines) == 1
 		for l := range d.Lines {
-			if l >= 1 && l <= len(lines) && (strings.Contains(lines[l-1], d.Token[:1]) || len(d.Lines) > 1) {
-				ok = true
+			if l < 1 || l > len(lines) {
+				ok = false
+				continue
+			}
+			if d.Kind == "K1" {
+				ok = ok && strings.ContainsAny(lines[l-1], ",]}")
+			} else {
+				ok = ok && strings.Contains(lines[l-1], d.Token)
 			}
 		}
 		if !ok {
